@@ -6,7 +6,7 @@ from typing import Any
 
 import numpy as np
 
-from harness.core import Collector, check, run_hypothesis
+from harness.core import Collector, check, guard_call, run_hypothesis
 from harness.ropt_util import AffineEvaluator
 from ropt.config.enopt import EnOptConfig
 from ropt.ensemble_evaluator import EnsembleEvaluator
@@ -381,14 +381,51 @@ def hypothesis_shard(item: dict[str, Any]) -> Collector:
     return col
 
 
+def grid_shard(item: dict[str, Any]) -> Collector:
+    """Every filter-index map of K objectives and C constraints over two filters (one ranking an objective, one a constraint),
+    evaluated alone / together with a gradient / in a batch, with and without a failed realization; fixed values."""
+    import itertools
+
+    col = Collector(ID)
+    k_n, c_n = item["K"], item["C"]
+    r_n, n = 4, 2
+    filters = [{"method": "sort-objective", "options": {"sort": [0], "first": 1, "last": 2}},
+               {"method": "cvar-constraint", "options": {"sort": 0, "percentile": 0.5}}]
+    for obj_filt in itertools.product((-1, 0, 1), repeat=k_n):
+        for con_filt in itertools.product((-1, 0, 1), repeat=c_n):
+            for mode, nans in itertools.product(("alone", "combined", "batch"), ([], [(1, 0)], [(3, k_n)])):
+                case = {
+                    "n": n, "R": r_n, "K": k_n, "C": c_n, "weights": [1.0, 2.0, 3.0, 0.5], "obj_weights": [1.0, 0.5][:k_n],
+                    "estimators": ["mean", "stddev"] if item["stddev"] else ["mean"], "filters": filters, "min_success": 1,
+                    "obj_est": [i % 2 for i in range(k_n)] if item["stddev"] else None, "con_est": [(i + 1) % 2 for i in range(c_n)] if item["stddev"] else None,
+                    "obj_filt": list(obj_filt), "con_filt": list(con_filt),
+                    "slopes": [0.25 * (((7 * i) % 11) - 5) for i in range(r_n * (k_n + c_n) * n)],
+                    "offsets": [0.5 * (((5 * i) % 13) - 6) for i in range(r_n * (k_n + c_n))],
+                    "nans": list(nans), "xs": [[1.0, -0.5]] if mode != "batch" else [[1.0, -0.5], [0.0, 2.0]], "single": mode != "batch",
+                    "meta_col": None, "combined": mode == "combined", "pmin": 2, "pert_nans": [], "later_nans": [] if nans else None,
+                }
+                info: dict[str, Any] = {}
+
+                def go(case: dict[str, Any] = case, info: dict[str, Any] = info) -> None:
+                    info.update(run_case(case))
+
+                guard_call(col, case, go)
+                col.case((k_n, c_n, item["stddev"], obj_filt, con_filt, mode, tuple(nans)), nontrivial=not info.get("aborted", True),
+                         classes=("filter-map-grid", f"mode={mode}", "failures" if nans else "no-failures",
+                                  "aborted" if info.get("aborted", True) else "value"), sample=case)
+    col.extra["exhaustive"] = True
+    return col
+
+
 def shards(tier: str, seed: int) -> list[dict[str, Any]]:
     nshard = 8 if tier == "quick" else 16
     examples = 150 if tier == "quick" else 4000
-    return [{"seed": seed * 1000 + i, "examples": examples} for i in range(nshard)]
+    grid = [{"kind": "grid", "K": k_n, "C": c_n, "stddev": sd} for k_n in (1, 2) for c_n in (1, 2) for sd in (False, True)]
+    return [*grid, *({"seed": seed * 1000 + i, "examples": examples} for i in range(nshard))]
 
 
 def run_shard(item: dict[str, Any]) -> Collector:
-    return hypothesis_shard(item)
+    return grid_shard(item) if item.get("kind") == "grid" else hypothesis_shard(item)
 
 
 def replay(case: dict[str, Any]) -> None:
